@@ -193,6 +193,10 @@ func (m *Model) evalBin(e *Expr) (Val, *mErr) {
 			return numV(l.N + r.N), nil
 		}
 		if l.K == 's' {
+			if len(l.S)+len(r.S) > 4096 {
+				m.discard = "string growth beyond the world's size bound"
+				return strV(""), nil
+			}
 			return strV(l.S + r.S), nil
 		}
 		return Val{}, &mErr{what: "+ on booleans"}
@@ -461,6 +465,10 @@ func (m *Model) execSet(s *Stmt) *mErr {
 		case "=":
 			m.store[s.Var] = val
 		case "+=":
+			if len(prev.S)+len(val.S) > 4096 {
+				m.discard = "string growth beyond the world's size bound"
+				return nil
+			}
 			m.store[s.Var] = strV(prev.S + val.S)
 		default:
 			return &mErr{what: "unsupported compound assignment on a string"}
@@ -541,6 +549,9 @@ func (m *Model) Next(arg int) Resp {
 	}
 	for {
 		m.steps++
+		if m.discard != "" {
+			return Resp{Kind: rEnd}
+		}
 		if m.steps > m.stepCap {
 			m.discard = "step budget exceeded (non-yielding cycle)"
 			return Resp{Kind: rEnd}
